@@ -472,7 +472,7 @@ fn watchdog() {
 
 /// Names of the probe sites (index = site id) for evidence output.
 pub fn site_name(i: usize) -> &'static str {
-    const NAMES: [&str; 53] = [
+    const NAMES: [&str; 56] = [
         "-",
         "mt_worker_before_deactivate",
         "mt_worker_deactivated",
@@ -526,6 +526,9 @@ pub fn site_name(i: usize) -> &'static str {
         "taskset_wake_next_set",
         "taskset_take_before_cas",
         "st_before_run",
+        "injector_insert_before_flag",
+        "injector_push_before_flag",
+        "injector_pop_before_flag",
     ];
     NAMES.get(i).copied().unwrap_or("?")
 }
